@@ -414,7 +414,7 @@ func c10ConnSide(r *Run) {
 					r.guarded(key, rule, fn, site, doOK, nil, "pairs with a guarded do()")
 					continue
 				}
-				r.guarded(key, rule, fn, site, callResultAtom(ro.isActive, true), nil, "guarded by IsActive()==true")
+				r.guarded(key, rule, fn, site, activeFact(ro), nil, "guarded by IsActive()==true")
 			}
 		}
 	}
